@@ -284,7 +284,7 @@ def r10_2(ctx):
             ctx.paths += 1
             hc = [e for e in p.events if e.kind == "call" and e.what == "self.handle_callback"]
             stop = [e for e in p.events if e.kind == "call" and e.what == "self._ezsp_event.clear"]
-            gwc = [e for e in p.events if e.kind == "call" and e.what == "self._gw.close"]
+            gwc = [e for e in p.events if e.kind == "call" and (e.what == "self._gw.close" or e.callee == "gw.close")]  # (also through a local alias)
             if ncb >= 2:
                 ok = (p.terminal == "return" and len(hc) == 1 and hc[0].args == ("_reset_controller_application", (Sym("error"),)) and stop and gwc
                       and p.events.index(stop[0]) < p.events.index(hc[0]) and p.events.index(gwc[0]) < p.events.index(hc[0])
